@@ -85,7 +85,7 @@ def replay_main(pid, obfile):
 # --------------------------------------------------------------------------- parent
 def _sub(args, timeout):
     env = dict(os.environ)
-    env["PYTHONPATH"] = ROOT + os.pathsep + env.get("PYTHONPATH", "")
+    env["PYTHONPATH"] = (os.environ["VF_REPO"] + os.pathsep if os.environ.get("VF_REPO") else "") + ROOT + os.pathsep + env.get("PYTHONPATH", "")
     env.setdefault("PYTHONHASHSEED", "0")
     return subprocess.run([sys.executable, "-W", "ignore", "-m", "symx.run"] + args, capture_output=True, text=True,
                           timeout=timeout, cwd=ROOT, env=env)
@@ -267,8 +267,9 @@ def main(pid, tier):
         }
         if hasattr(h, "evidence_extra"):
             ev["coverage"].update(h.evidence_extra(tier, results))
-        os.makedirs(os.path.join(ROOT, "evidence"), exist_ok=True)
-        json.dump(ev, open(os.path.join(ROOT, "evidence", f"{pid}.json"), "w"), indent=1, default=str)
+        evdir = os.environ.get("VF_EVIDENCE_DIR") or os.path.join(ROOT, "evidence")
+        os.makedirs(evdir, exist_ok=True)
+        json.dump(ev, open(os.path.join(evdir, f"{pid}.json"), "w"), indent=1, default=str)
         print(f"{pid} {tier}: {len(discharged)} discharged ({n_solver} by solver), {len(inconclusive)} inconclusive, "
               f"{twins_ok} twins sat, {len(known_hits)} known-finding hits, {len(violations)} violations, "
               f"{len(harness_errors)} harness errors; solver {solver_time}s, wall {ev['wall_s']}s")
